@@ -67,11 +67,74 @@ def _set_fields(M, cls):
                         if isinstance(t, ast.Attribute) and isinstance(t.value, ast.Name) and t.value.id == 'self':
                             vals.setdefault(t.attr, []).append((m, n.value))
     out = {f_ for f_, vs in vals.items() if vs and all(isinstance(v_, (ast.Set, ast.SetComp)) or (isinstance(v_, ast.Call) and isinstance(v_.func, ast.Name)
-                                                                                                 and v_.func.id in ('set', 'frozenset') and v_.args) or
+                                                                                                 and v_.func.id in ('set', 'frozenset')) or
                                                        (isinstance(v_, ast.Call) and isinstance(v_.func, ast.Attribute) and isinstance(v_.func.value, ast.Name) and v_.func.value.id == 'self'
                                                         and _returns_set(M, cls, v_.func.attr)) for _, v_ in vs)}
     cache[cls.name] = out
     return out
+
+
+def _loop_is_keyed_only(M, fn, loop):
+    """`for k in <set>:` whose body does nothing but file, replace or drop the entry of k in dict-valued fields (self.D[k] = ..., self.D.pop(k, ...), del self.D[k]) and
+    bind locals - and no such D is ever iterated, listed, handed out or passed on anywhere in the class family (only looked up by key): the order in which the
+    entries were filed is then visible to nobody"""
+    if not isinstance(loop.target, ast.Name) or loop.orelse or fn.cls is None:
+        return False
+    lv = loop.target.id
+    tables = set()
+
+    def keyed(sub):
+        return isinstance(sub, ast.Subscript) and isinstance(sub.slice, ast.Name) and sub.slice.id == lv and isinstance(sub.value, ast.Attribute) \
+            and isinstance(sub.value.value, ast.Name) and sub.value.value.id == 'self'
+
+    def stmt_ok(s):
+        if isinstance(s, ast.Assign):
+            for t in s.targets:
+                if isinstance(t, ast.Name):
+                    continue
+                if keyed(t):
+                    tables.add(t.value.attr)
+                    continue
+                return False
+            return not any(isinstance(x, (ast.Yield, ast.YieldFrom, ast.Await, ast.NamedExpr)) for x in ast.walk(s.value))
+        if isinstance(s, ast.Delete):
+            if all(keyed(t) for t in s.targets):
+                tables.update(t.value.attr for t in s.targets)
+                return True
+            return False
+        if isinstance(s, ast.Expr) and isinstance(s.value, ast.Call) and isinstance(s.value.func, ast.Attribute) and s.value.func.attr == 'pop':
+            r = s.value.func.value
+            if isinstance(r, ast.Attribute) and isinstance(r.value, ast.Name) and r.value.id == 'self' and s.value.args and isinstance(s.value.args[0], ast.Name) \
+                    and s.value.args[0].id == lv:
+                tables.add(r.attr)
+                return True
+            return False
+        if isinstance(s, ast.If):
+            return all(stmt_ok(b) for b in s.body + s.orelse)
+        if isinstance(s, (ast.Pass, ast.Continue)):
+            return True
+        return False
+    if not all(stmt_ok(s) for s in loop.body) or not tables:
+        return False
+    # the values computed inside call nothing that changes state in loop order (plain reads, constructors of records, properties): no call statement was allowed
+    # above; calls inside expressions are restricted to lookups on self's fields and constructions
+    for k in fn.cls.mro() + [d for d in M.subclasses(fn.cls) if d is not fn.cls]:
+        for m in k.methods.values():
+            pm2 = parent_map(m.node)
+            for n in ast.walk(m.node):
+                if isinstance(n, ast.Attribute) and n.attr in tables and isinstance(n.value, ast.Name) and n.value.id == 'self':
+                    p = pm2.get(n)
+                    if isinstance(p, ast.Subscript) and p.value is n:
+                        continue
+                    if isinstance(p, ast.Compare) and n in p.comparators and all(isinstance(o, (ast.In, ast.NotIn)) for o in p.ops):
+                        continue
+                    if isinstance(p, ast.Attribute) and p.attr in ('get', 'pop', 'setdefault', 'clear') and isinstance(pm2.get(p), ast.Call):
+                        continue
+                    if isinstance(p, ast.Assign) and n in p.targets and isinstance(p.value, (ast.Dict, ast.Call)) and not (isinstance(p.value, ast.Dict) and p.value.keys) \
+                            and not (isinstance(p.value, ast.Call) and (p.value.args or not isinstance(p.value.func, ast.Name) or p.value.func.id not in ('dict', 'OrderedDict'))):
+                        continue
+                    return False
+    return True
 
 
 def _comp_result_is_order_free(fn, pm, gen):
@@ -118,6 +181,7 @@ def check(ctx):
     ctx.sub(randomness)
     ctx.sub(shared_state)
     ctx.sub(memoisation)
+    ctx.sub(closure_memos)
     ctx.sub(ordering_ops)
 
 
@@ -156,6 +220,8 @@ def set_order(ctx):
                 use = 'passed to %s(...)' % name
             elif isinstance(par, (ast.For, ast.comprehension)) and par.iter is n:
                 if isinstance(par, ast.comprehension) and _comp_result_is_order_free(fn, pm, par):
+                    continue
+                if isinstance(par, ast.For) and _loop_is_keyed_only(M, fn, par):
                     continue
                 use = 'iterated'
             elif isinstance(par, ast.Compare):
@@ -932,8 +998,9 @@ def _wrapped_by_copy(t, R):
         if not isinstance(x, tuple):
             return
         c2 = copied
-        if x[0] == 'call' and x[1] in (('ext', 'LIST'), ('ext', 'SORTED'), ('ext', 'DICT'), ('ext', 'SET'), ('ext', 'TUPLE'), ('meth', 'copy'), ('ext', 'COPY'), ('ext', 'copy.deepcopy')):
-            c2 = True
+        if x[0] == 'call' and x[1] in (('ext', 'LIST'), ('ext', 'SORTED'), ('ext', 'DICT'), ('ext', 'SET'), ('ext', 'TUPLE'), ('meth', 'copy'), ('ext', 'COPY'), ('ext', 'copy.deepcopy'),
+                                       ('ext', 'OP_BitOr'), ('ext', 'OP_BitAnd'), ('ext', 'CONCAT')):
+            c2 = True           # (a | b, a & b, a + b build a new dict / set / list from their operands)
         if x[0] == 'dict':
             for k_, v_ in x[1]:
                 if k_ is None:
@@ -969,6 +1036,31 @@ def _wrapped_by_copy(t, R):
 STATELESS_CLASSES = ('CSVDailyBarDataSource', 'BacktestDataHandler', 'SingleSignalAlphaModel', 'FixedSignalsAlphaModel', 'StaticUniverse', 'DynamicUniverse',
                   'FixedWeightPortfolioOptimiser', 'EqualWeightPortfolioOptimiser', 'PercentFeeModel', 'ZeroFeeModel', 'SimulatedExchange',
                   'DollarWeightedCashBufferedOrderSizer', 'LongShortLeveragedOrderSizer', 'PortfolioConstructionModel', 'ExecutionHandler', 'QuantTradingSystem')
+
+
+def _revalidated(ctx, m, state_fields):
+    """some path of m tests the question (a parameter) against the kept state and then re-seeds a kept field from the question alone"""
+    from ..symex import Undecided
+    try:
+        ps = summarise(ctx, m, policy=default_policy)
+    except Undecided:
+        return None
+    params = {p_ for p_ in m.params if p_ not in ('self', 'cls')}
+    self_ = V('self')
+
+    def state_reads(t):
+        return {s_[2] for s_ in T.subterms(t) if s_[0] == 'attr' and s_[1] == self_ and s_[2] in state_fields}
+
+    def param_reads(t):
+        return {s_[1] for s_ in T.subterms(t) if s_[0] == 'var' and s_[1] in params}
+    for p in ps:
+        tested = [c_ for c_, _, _ in p.conds if c_[0] == 'cmp' and c_[1] in ('<', '<=', '==') and state_reads(c_) and param_reads(c_)]
+        if not tested:
+            continue
+        for w in heap_writes(p, into_loops=False):
+            if w.loc[0] == 'attr' and w.loc[1] == self_ and w.loc[2] in state_fields and w.value is not None and param_reads(w.value) and not state_reads(w.value):
+                return 'on path [%s] it is compared with the question and self.%s is rebuilt from the question alone (%s)' % (fmt(tested[0])[:80], w.loc[2], fmt(w.value)[:60])
+    return None
 
 
 def _reset_only(m, fld):
@@ -1134,9 +1226,60 @@ def state_scan(ctx, cnames):
                     ctx.undecided('C18.memo', 'stateless components keep no state between calls (%s)' % m.qn, m.site(n),
                                   'self.%s only decides when self.%s is emptied: whether that is often enough is the open question about those tables' % (fld, '/'.join(sorted(tables_))))
                     continue
+                rv_ = _revalidated(ctx, m, set(found))
+                if rv_:
+                    # a cursor that is checked against the question before it is used and rebuilt from the question alone when it does not apply: meant not to depend
+                    # on history; whether the check is sufficient (and the walk forward complete) is an argument about its values, not made here
+                    ctx.undecided('C18.memo', 'stateless components keep no state between calls (%s)' % m.qn, m.site(n),
+                                  'self.%s is kept between calls, but %s' % (fld, rv_))
+                    continue
                 ctx.violation('C18.memo', 'stateless components keep no state between calls (%s)' % m.qn, m.site(n),
                               'self.%s is %s outside the constructor and read back: results depend on the history of earlier queries' % (fld, how),
                               key='C18.memo|state|%s|%s' % (m.qn, fld))
+
+
+def closure_memos(ctx):
+    """Memoisation by a decorator of the package: `def deco(method): table = {}; def wrapper(self, x): ... table[k] = method(self, x) ... return table[k]`.  The table
+    lives as long as the decorated function does and is shared by every instance; the object handed out is the stored one.  Judged like any other memoised function
+    (new_memo), and in addition the key must tell instances apart whenever the method reads its instance."""
+    M = ctx.M
+    n = 0
+    for f in list(M.all_funcs()):
+        if f.parent is not None or not f.node.decorator_list:
+            continue
+        for d in f.node.decorator_list:
+            head = d.func if isinstance(d, ast.Call) else d
+            if not isinstance(head, ast.Name):
+                continue
+            D = M.resolve_name(f.mod, head.id)
+            if D is None or not hasattr(D, 'node') or not isinstance(getattr(D, 'node', None), ast.FunctionDef):
+                continue
+            # tables bound in the decorator's own body (or in the decorator factory's inner function) to an empty dict
+            for scope in [D.node] + [x for x in D.node.body if isinstance(x, ast.FunctionDef)]:
+                tables = {t.id for s in scope.body if isinstance(s, ast.Assign) for t in s.targets if isinstance(t, ast.Name)
+                          and ((isinstance(s.value, ast.Dict) and not s.value.keys) or (isinstance(s.value, ast.Call) and isinstance(s.value.func, ast.Name)
+                                                                                        and s.value.func.id in ('dict', 'OrderedDict') and not s.value.args and not s.value.keywords))}
+                if not tables:
+                    continue
+                for W in [x for x in scope.body if isinstance(x, ast.FunctionDef)]:
+                    stores = [t for s in ast.walk(W) if isinstance(s, ast.Assign) for t in s.targets if isinstance(t, ast.Subscript) and isinstance(t.value, ast.Name) and t.value.id in tables]
+                    rets = [r for r in ast.walk(W) if isinstance(r, ast.Return) and isinstance(r.value, ast.Subscript) and isinstance(r.value.value, ast.Name) and r.value.value.id in tables]
+                    if not stores or not rets:
+                        continue
+                    n += 1
+                    T_ = stores[0].value.id
+                    key_names = {x.id for x in ast.walk(stores[0].slice) if isinstance(x, ast.Name)}
+                    self_name = W.args.args[0].arg if W.args.args else None
+                    reads_self = f.cls is not None and not f.is_static and any(isinstance(x, ast.Attribute) and isinstance(x.value, ast.Name) and x.value.id == 'self'
+                                                                               for x in ast.walk(f.node))
+                    inst = 'memoised function %s gives the answer a fresh computation would give' % f.qn
+                    if reads_self and self_name not in key_names:
+                        ctx.violation('C18.memo', inst, f.site(), 'READ: the decorator %s keeps one table (%s) for every instance and files the answers under %s, while %s reads its instance: '
+                                      'another %s asking the same question is handed the first one\'s answer' % (D.qn, T_, ast.unparse(stores[0].slice)[:40], f.qn, f.cls.name),
+                                      key='C18.memo|shared|%s' % f.qn)
+                        continue
+                    new_memo(ctx, f)
+    ctx.holds('C18.memo', 'memoisation by decorators of the package (%d decorated functions examined)' % n, None)
 
 
 def memoisation(ctx):
@@ -1153,7 +1296,8 @@ def memoisation(ctx):
         mts = memo_tables(ctx, f, ps)
         sound = {k for k, v in mts.items() if v[0] == 'sound'}
         cursors = {k for k, v in mts.items() if v[0] == 'other' and 'cursor' in v[1]}
-        field_of = lambda loc: (loc[1][2] if loc[0] == 'sub' and loc[1][0] == 'attr' and loc[1][1] == V('self') else None)
+        from ..lib import holder_chain
+        field_of = lambda loc: (loc[1][2] if loc[0] == 'sub' and loc[1][0] == 'attr' and holder_chain(loc[1]) is not None else None)
         for p in ps:
             ws = [w for w in heap_writes(p) if field_of(w.loc) not in sound]
             if ws and all(any(s_[0] == 'attr' and s_[1] == V('self') and s_[2] in cursors for s_ in T.subterms(w.loc)) for w in ws):
